@@ -172,7 +172,7 @@ def decorations(v, modname, tier, rng, pool=None):
         yield ('surround', ch + v + ch)
         yield ('surround', v + ch)
         yield ('surround', ch + v)
-    use = pool if tier == 'thorough' else rng.sample(pool, 14) + [' ', '-', '.', '\n', '/']
+    use = pool if tier == 'thorough' else rng.sample(pool, min(14, len(pool))) + [' ', '-', '.', '\n', '/']
     for ch in use:
         for p in positions(n, tier, rng, extra=1):
             yield ('insert', v[:p] + ch + v[p:])
